@@ -48,7 +48,7 @@ func genStep(p *Profile, cfg *Config) *rapid.Generator[[]Op] {
 			}
 			if p.Hostile {
 				if rapid.IntRange(0, 5).Draw(t, "hmsg") == 0 {
-					op.Msg = rapid.IntRange(1, 4).Draw(t, "msg")
+					op.Msg = rapid.IntRange(1, 5).Draw(t, "msg")
 				}
 				if rapid.IntRange(0, 5).Draw(t, "hnoic") == 0 {
 					op.NoIC = true
